@@ -232,7 +232,8 @@ def run_case(ctx, case):
     mon = HistoryMonitor(ctx)
     eng = hist.Engine(ctx, case, [mon])
     eng.run()
-    ctx.case({k: case[k] for k in ("worklist", "worktable", "n_ops", "opseed")}, mon.nontrivial)
+    c2 = {k: case[k] for k in ("worklist", "worktable", "n_ops", "opseed")}
+    ctx.case(c2, mon.nontrivial, sample=dict(c2, executed_operations_tail=eng.tail(4)))
 
 
 def gates(stats, tier):
